@@ -252,6 +252,7 @@ func ActionState(l *lexer) stateFn {
 		l.emit(ActionEnd)
 	default:
 		l.error("Action lexer error")
+		return nil
 	}
 
 	return rootState
